@@ -16,13 +16,28 @@ def flood_pattern(rng, rates, tps, length, sources):
     minb = min(r["b"] for r in rates)
     while len(steps) < length:
         src = rng.choice(sources)
-        mode = rng.choice(["flood", "flood", "retry", "idle", "oversize", "mixed"])
+        mode = rng.choice(["flood", "flood", "retry", "idle", "oversize", "mixed", "trickle", "trickle"])
         if mode == "flood":
             for _ in range(rng.randint(0, maxb)):
                 steps.append({"op": "req", "src": src, "n": rng.choice([1, 1, 2])})
             for _ in range(rng.randint(1, 25)):
                 steps.append({"op": "req", "src": src, "n": rng.choice([1, 1, minb]), "flood": True})
             steps.append({"op": "adv", "d": rng.choice([1, 1, 2, min(r["p"] // r["a"] for r in rates)])})
+        elif mode == "trickle":
+            # drain, then rejected single-token requests a fraction of a token interval apart: a bucket that has no whole token
+            # to hand out leaves its refill checkpoint alone, so the requests that follow are decided exactly as if the rejected
+            # ones had never been made. (Only for one rate and amount 1: a refused request that finds whole tokens accrued in
+            # some bucket - a larger amount, or another rate of the set - credits them and restarts that bucket's interval,
+            # which drops the elapsed fraction; that is rounding of refill time in the pinned code, not a debit of quota, and
+            # the history without the rejected requests is then not bit-identical. See DESIGN.md section 10.)
+            if len(rates) != 1:
+                continue
+            for _ in range(maxb + 1):
+                steps.append({"op": "req", "src": src, "n": rng.choice([1, minb])})
+            for _ in range(rng.randint(2, 12)):
+                steps.append({"op": "adv", "d": rng.choice([1, 1, 2, 3])})
+                for _ in range(rng.randint(1, 3)):
+                    steps.append({"op": "req", "src": src, "n": 1, "flood": True})
         elif mode == "retry":
             for _ in range(maxb + 1):
                 steps.append({"op": "req", "src": src, "n": rng.choice([1, minb])})
